@@ -11,3 +11,10 @@ CONTRACTS = [SeriesSchemaValidate] + list(POLARS_API) + list(DEPTH_CONTRACTS)
 from contracts.C02_error_handler import CollectError, CollectErrors
 
 CONTRACTS = list(CONTRACTS) + [CollectError, CollectErrors]
+
+# which cast a depth selects (polars): the value-checking try_coerce under every depth that validates data, the lazy strict cast only
+# under SCHEMA_ONLY - "depth only removes checks": DATA_ONLY must still see the uncoercible values SCHEMA_AND_DATA sees
+from contracts.C10_polars_container_coerce import PolarsCoerceHelper  # noqa: E402
+from contracts.C10_polars_column_coerce import PolarsColumnCoerceDtype  # noqa: E402
+
+CONTRACTS = list(CONTRACTS) + [PolarsCoerceHelper, PolarsColumnCoerceDtype]
